@@ -155,6 +155,8 @@ PLANS["C01"] = {
         T("reads", "reads", (60, 1500), ["InvC01"]),
         T("general", "general", (30, 800), ["InvC01"]),
         T("extremes", "extremes", (12, 300), ["InvC01"]),
+        # strings of 100 .. 70 000 bytes that are prefixes of one another, in an indexed field
+        T("longstr", "longstr", (8, 100), ["InvC01"], chunk=4, heap="6g", seed_off=27),
         EDG("edges", ["InvC01"], ops=["Derived"]),
         # every conjunction / disjunction of two bounds on the indexed field, in both orders, on content-rich states
         EDG("edges-bounds", ["InvC01"], ops=["Derived"], rich_states=40, states=(3, 30), reads=(0, 0),
@@ -188,6 +190,7 @@ PLANS["C08"] = {
         T("ties", "ties", (16, 400), ["InvC08"], chunk=6),
         T("extremes", "extremes", (15, 300), ["InvC08"]),
         T("floats", "floats", (15, 300), ["InvC08"]),
+        T("longstr", "longstr", (8, 100), ["InvC08"], chunk=4, heap="6g", seed_off=29),
         EDG("edges", ["InvC08"], ops=["Derived"]),
         # every single-leaf criterion on the indexed field x every sort x windows with a skip, on content-rich states
         # ... and on the states where x is absent from one document and nil in another, under an index on x
@@ -358,6 +361,7 @@ PLANS["C10"] = {
         # times up to year 9999 (beyond what 64 bits of nanoseconds hold) in indexed, filtered and sorted fields
         T("fartimes", "fartimes", (12, 200), ["InvC01", "InvC08"]),
         T("strkeys", "strkeys", (12, 200), ["InvC01", "InvC08"]),
+        T("longstr", "longstr", (8, 100), ["InvC01", "InvC08"], chunk=4, heap="6g", seed_off=31),
         T("extremes", "extremes", (12, 200), ["InvC01", "InvC08"]),
         T("floats", "floats", (12, 200), ["InvC01", "InvC08"]),
     ],
